@@ -1069,23 +1069,30 @@ class RRSLRecord:
 
         self._initialized = True
 
-    def add_component(self, symlink_comp):
-        # type: (bytes) -> None
+    def add_component(self, symlink_comp, literal=False):
+        # type: (bytes, bool) -> None
         """
         Add a new component to this symlink record.
 
         Parameters:
          symlink_comp - The string to add to this symlink record.
+         literal - Whether the string is (a piece of) an ordinary component,
+                   to be recorded as it is even if it reads '.', '..' or '/'.
         Returns:
          Nothing.
         """
         if not self._initialized:
             raise pycdlibexception.PyCdlibInternalError('SL record not initialized')
 
-        if (self.current_length() + RRSLRecord.Component.length(symlink_comp)) > 255:
+        if literal:
+            comp = self.Component(0, len(symlink_comp), symlink_comp)
+        else:
+            comp = self.Component.factory(symlink_comp)
+
+        if (self.current_length() + 2 + comp.curr_length) > 255:
             raise pycdlibexception.PyCdlibInvalidInput('Symlink would be longer than 255')
 
-        self.symlink_components.append(self.Component.factory(symlink_comp))
+        self.symlink_components.append(comp)
 
     def current_length(self):
         # type: () -> int
@@ -1100,11 +1107,11 @@ class RRSLRecord:
         if not self._initialized:
             raise pycdlibexception.PyCdlibInternalError('SL record not initialized')
 
-        strlist = []
+        length = RRSLRecord.header_length()
         for comp in self.symlink_components:
-            strlist.append(comp.name())
+            length += 2 + comp.curr_length
 
-        return RRSLRecord.length(strlist)
+        return length
 
     def record(self):
         # type: () -> bytes
@@ -2777,10 +2784,11 @@ class RockRidge:
         else:
             # Not enough room in the directory record, so proceed to
             # the continuation entry directly.
+            if self.dr_entries.ce_record is None:
+                return -1
             curr_comp_area_length = RRSLRecord.maximum_component_area_length()
             self.ce_entries.sl_records.append(curr_sl)
-            if self.dr_entries.ce_record is not None:
-                self.dr_entries.ce_record.add_record(sl_rec_header_len)
+            self.dr_entries.ce_record.add_record(sl_rec_header_len)
             sl_in_dr = False
 
         for index, comp in enumerate(symlink_path.split(b'/')):
@@ -2788,24 +2796,22 @@ class RockRidge:
             if index == 0 and comp == b'':
                 comp = b'/'
                 special = True
-                mincomp = comp
-            elif comp == b'.':
+            elif comp in (b'.', b'..'):
                 special = True
-                mincomp = comp
-            elif comp == b'..':
-                special = True
-                mincomp = comp
-            else:
-                mincomp = b'a'
 
             offset = 0
             done = False
             while not done:
-                minimum = RRSLRecord.Component.length(mincomp)
+                if special or offset >= len(comp):
+                    minimum = 2
+                else:
+                    minimum = 3
                 if minimum > curr_comp_area_length:
                     # There wasn't enough room in the last SL record
                     # for more data.  Set the 'continued' flag on the old
                     # SL record, and then create a new one.
+                    if self.dr_entries.ce_record is None:
+                        return -1
                     curr_sl.set_continued()
                     if offset != 0:
                         # If we need to continue this particular
@@ -2818,39 +2824,33 @@ class RockRidge:
                     curr_sl.new()
                     self.ce_entries.sl_records.append(curr_sl)
                     curr_comp_area_length = RRSLRecord.maximum_component_area_length()
-                    if self.dr_entries.ce_record is not None:
-                        self.dr_entries.ce_record.add_record(sl_rec_header_len)
+                    self.dr_entries.ce_record.add_record(sl_rec_header_len)
                     sl_in_dr = False
 
                 if special:
-                    complen = minimum
                     length = 0
                     compslice = comp
                 else:
-                    complen = RRSLRecord.Component.length(comp[offset:])
-                    if complen > curr_comp_area_length:
-                        length = curr_comp_area_length - 2
-                    else:
-                        length = complen
+                    # The number of bytes of this component that go into this
+                    # SL record: all that are left, or as many as fit.
+                    length = min(len(comp) - offset, curr_comp_area_length - 2)
                     compslice = comp[offset:offset + length]
 
-                curr_sl.add_component(compslice)
+                # Pieces of an ordinary component are recorded as they are,
+                # even if a piece happens to read '.' or '..'.
+                curr_sl.add_component(compslice, not special)
 
                 if sl_in_dr:
-                    curr_dr_len += RRSLRecord.Component.length(compslice)
+                    curr_dr_len += 2 + length
                 else:
-                    if self.dr_entries.ce_record is not None:
-                        self.dr_entries.ce_record.add_record(RRSLRecord.Component.length(compslice))
+                    self.dr_entries.ce_record.add_record(2 + length)
 
                 offset += length
 
                 curr_comp_area_length = curr_comp_area_length - length - 2
 
-                if special:
+                if special or offset >= len(comp):
                     done = True
-                else:
-                    if offset >= len(comp):
-                        done = True
 
         return curr_dr_len
 
